@@ -23,6 +23,7 @@ type Engine struct {
 	maxIndexFan int
 	maxSymFork  int
 	skipStopOnce bool // vLoopStep: the first visit of the stop block is the loop entry, not its end
+	frames       []*Frame // call stack (vCallerLocal)
 
 	// per harness run
 	H *HarnessRun
@@ -140,6 +141,9 @@ func (e *Engine) callFunction(s *State, fn *ssa.Function, args []Value, bind []V
 	for i, p := range fn.Params {
 		fr.regs[p] = args[i]
 	}
+	e.frames = append(e.frames, fr)
+	nfr := len(e.frames)
+	defer func() { e.frames = e.frames[:nfr-1] }()
 	o := e.run(&fr, s, fn.Blocks[0], nil, nil, nil)
 	if o.k == oDead {
 		s.dead = true
